@@ -223,6 +223,18 @@ Proof.
       * destruct I3 as [[H1 H2]|H3]; [left; split; [exact H1|]; cbn [bmem]; rewrite H2; apply orb_true_r|right; rewrite H3; exact Hg].
 Qed.
 
+Lemma in_reg_get_reregister db c left dl a : forall keys r rk w,
+  In w (reg_get (reregister r db c keys left dl a) rk) -> w = mkw c dl left a \/ In w (reg_get r rk).
+Proof.
+  induction keys as [|k keys IH]; intros r rk w H; [right; exact H|].
+  change (reregister r db c (k :: keys) left dl a) with
+    (reregister (reg_put r (db, k) (ins_at (mkw c dl left a) (reg_get r (db, k)))) db c keys left dl a) in H.
+  apply IH in H. destruct H as [H|H]; [left; exact H|].
+  destruct (rk_eqb rk (db, k)) eqn:E.
+  - apply rk_eqb_eq in E. subst rk. rewrite reg_get_put_same in H. apply in_ins_at in H. exact H.
+  - rewrite reg_get_put_other in H by exact E. right. exact H.
+Qed.
+
 (** ================= small facts ================= *)
 Lemma cnt_zero c q : cnt c q = O <-> forall w, In w q -> w_conn w <> c.
 Proof.
@@ -569,16 +581,101 @@ Proof.
 Qed.
 Lemma app_self_nil {A} (l ex : list A) : l = l ++ ex -> ex = [].
 Proof. intros H. rewrite <- (app_nil_r l) in H at 1. apply app_inv_head in H. symmetry. exact H. Qed.
+(** ---- renotify (a wake-up that found nothing, after the client is registered again): a
+    series of notify_key_ready, one for each key of the call that holds an element ---- *)
+Lemma agree_renotify d dbi : forall keys b, agree b -> agree (renotify d b dbi keys).
+Proof.
+  unfold renotify. induction keys as [|k keys IH]; intros b HA; cbn [fold_left]; [exact HA|].
+  apply IH. destruct (llen_of d k); [exact HA|apply agree_notify; exact HA].
+Qed.
+Lemma renotify_cons d b dbi k keys :
+  renotify d b dbi (k :: keys) = renotify d (match llen_of d k with O => b | S _ => notify_key_ready b dbi k end) dbi keys.
+Proof. reflexivity. Qed.
+Lemma renotify_fields d dbi : forall keys b,
+  b_blk (renotify d b dbi keys) = b_blk b /\ b_out (renotify d b dbi keys) = b_out b /\
+  b_crashed (renotify d b dbi keys) = b_crashed b /\ b_dead (renotify d b dbi keys) = b_dead b /\
+  b_in (renotify d b dbi keys) = b_in b.
+Proof.
+  induction keys as [|k keys IH]; intros b; [repeat split; reflexivity|]. rewrite renotify_cons.
+  destruct (IH (match llen_of d k with O => b | S _ => notify_key_ready b dbi k end)) as (H1 & H2 & H3 & H4 & H5).
+  destruct (llen_of d k); [repeat split; assumption|].
+  destruct (notify_key_ready_fields b dbi k) as (G1 & G2 & G3 & G4 & G5). repeat split; congruence.
+Qed.
+(** the waiters left in a queue were there before *)
+Lemma notify_key_ready_reg_sub b db k rk w :
+  In w (reg_get (b_reg (notify_key_ready b db k)) rk) -> In w (reg_get (b_reg b) rk).
+Proof.
+  unfold notify_key_ready. destruct (reg_get (b_reg b) (db, k)) as [|w0 q] eqn:Eg; [auto|].
+  cbn [with_wake with_reg b_reg]. rewrite reg_get_unregister. intros H.
+  assert (H1 : In w (reg_get (reg_put (b_reg b) (db, k) q) rk)) by (destruct (fst rk =? db); [eapply in_filter_sub; exact H|exact H]).
+  destruct (rk_eqb rk (db, k)) eqn:E.
+  - apply rk_eqb_eq in E. subst rk. rewrite reg_get_put_same in H1. rewrite Eg. right. exact H1.
+  - rewrite reg_get_put_other in H1 by exact E. exact H1.
+Qed.
+Lemma renotify_reg_sub d dbi rk w : forall keys b,
+  In w (reg_get (b_reg (renotify d b dbi keys)) rk) -> In w (reg_get (b_reg b) rk).
+Proof.
+  induction keys as [|k keys IH]; intros b H; [exact H|]. rewrite renotify_cons in H. apply IH in H.
+  destruct (llen_of d k); [exact H|eapply notify_key_ready_reg_sub; exact H].
+Qed.
+(** what it appends to the wake queue *)
+Fixpoint renotified_l (d : db) (b : blocking) (dbi : Z) (keys : list bytes) : list wakeup :=
+  match keys with
+  | [] => []
+  | k :: r => match llen_of d k with
+              | O => renotified_l d b dbi r
+              | S _ => renotified b dbi k ++ renotified_l d (notify_key_ready b dbi k) dbi r
+              end
+  end.
+Lemma renotify_wake d dbi : forall keys b, b_wake (renotify d b dbi keys) = b_wake b ++ renotified_l d b dbi keys.
+Proof.
+  induction keys as [|k keys IH]; intros b; [cbn; rewrite app_nil_r; reflexivity|]. rewrite renotify_cons. cbn [renotified_l].
+  destruct (llen_of d k); [apply IH|]. rewrite IH, notify_key_ready_wake, app_assoc. reflexivity.
+Qed.
+Lemma renotified_l_with_wake d dbi : forall keys b W, renotified_l d (with_wake b W) dbi keys = renotified_l d b dbi keys.
+Proof.
+  induction keys as [|k keys IH]; intros b W; cbn [renotified_l]; [reflexivity|].
+  destruct (llen_of d k); [apply IH|]. rewrite notify_with_wake, IH. reflexivity.
+Qed.
+Lemma renotify_with_wake d dbi : forall keys b W,
+  renotify d (with_wake b W) dbi keys = with_wake (renotify d b dbi keys) (W ++ renotified_l d b dbi keys).
+Proof.
+  induction keys as [|k keys IH]; intros b W.
+  - cbn [renotify fold_left renotified_l]. rewrite app_nil_r. reflexivity.
+  - rewrite !renotify_cons. cbn [renotified_l]. destruct (llen_of d k); [apply IH|].
+    rewrite notify_with_wake, IH, app_assoc. reflexivity.
+Qed.
+(** everybody it wakes is a waiter, hence Blocked *)
+Lemma renotified_l_blocked d dbi : forall keys b x, agree b -> In x (renotified_l d b dbi keys) ->
+  zlookup (u_conn x) (b_blk b) <> None.
+Proof.
+  induction keys as [|k keys IH]; intros b x HA Hx; cbn [renotified_l] in Hx; [destruct Hx|].
+  destruct (llen_of d k); [apply IH; assumption|]. apply in_app_or in Hx. destruct Hx as [Hx|Hx].
+  - unfold renotified in Hx. destruct (reg_get (b_reg b) (dbi, k)) as [|w q] eqn:Eg; [destruct Hx|].
+    destruct Hx as [<-|[]]. cbn [u_conn].
+    assert (Hw : In w (reg_get (b_reg b) (dbi, k))) by (rewrite Eg; left; reflexivity).
+    destruct (reg_get_in _ _ _ Hw) as [q0 [K1 K2]]. destruct HA as (A1 & _).
+    destruct (A1 _ _ _ K1 K2) as (st & T & _). congruence.
+  - rewrite <- (proj1 (notify_key_ready_fields b dbi k)). apply IH; [apply agree_notify; exact HA|exact Hx].
+Qed.
+
+(** the state a wake-up that found nothing leaves: the client registered again *)
+Definition again (b : blocking) (u : wakeup) (st : bstate) : blocking :=
+  with_reg b (reregister (b_reg b) (u_db u) (u_conn u) (bl_keys st) (bl_left st) (bl_dl st) (u_at u)).
 Lemma wake_client_wake now s b u :
   exists ex, b_wake (snd (wake_client now s b u)) = b_wake b ++ ex /\
-             (ex = [] \/ (zlookup (u_conn u) (b_blk b) = None /\ ex = renotified b (u_db u) (u_key u))).
+             (ex = [] \/ (zlookup (u_conn u) (b_blk b) = None /\ ex = renotified b (u_db u) (u_key u))
+              \/ (exists st d', zlookup (u_conn u) (b_blk b) = Some st /\ ex = renotified_l d' (again b u st) (u_db u) (bl_keys st)
+                                /\ b_blk (snd (wake_client now s b u)) = b_blk b)).
 Proof.
   unfold wake_client.
   destruct (on_key (fst (purge_key now (get_db s (u_db u), []) (u_key u))) (u_key u) (e_pop (u_left u))) as [r d'].
-  destruct (zlookup (u_conn u) (b_blk b)) as [st|];
-    [destruct (recheck (bl_left st) d' (bl_keys st)) as [[[k v]|] d'']|]; destruct r; cbn [snd];
-    try (exists []; rewrite app_nil_r; split; [reflexivity|left; reflexivity]).
-  exists (renotified b (u_db u) (u_key u)). split; [apply notify_key_ready_wake|right; split; reflexivity].
+  destruct (zlookup (u_conn u) (b_blk b)) as [st|]; destruct r; cbn [snd];
+    try (exists []; rewrite app_nil_r; split; [reflexivity|left; reflexivity]);
+    try (exists (renotified_l d' (again b u st) (u_db u) (bl_keys st)); split;
+         [apply (renotify_wake d' (u_db u) (bl_keys st) (again b u st))
+         |right; right; exists st, d'; split; [reflexivity|split; [reflexivity|exact (proj1 (renotify_fields _ _ _ _))]]]).
+  exists (renotified b (u_db u) (u_key u)). split; [apply notify_key_ready_wake|right; left; split; reflexivity].
 Qed.
 
 Lemma agree_wake_client now s b u W ex :
@@ -590,18 +687,12 @@ Proof.
   destruct (zlookup (u_conn u) (b_blk b)) as [st|] eqn:Hst.
   - assert (Deliver : forall k v, agreeW (unblock (emit b (u_conn u) (FArray [FBulk k; FBulk v])) (u_conn u)) W)
       by (intros k v; apply (agree_unblock (emit b (u_conn u) (FArray [FBulk k; FBulk v])) W u); exact HA).
-    assert (Again : agreeW (snd (match recheck (bl_left st) d' (bl_keys st) with
-                                 | (Some (k, v), d'') => (log_pop (set_db s (u_db u) d'') (u_db u) (bl_left st) k, unblock (emit b (u_conn u) (FArray [FBulk k; FBulk v])) (u_conn u))
-                                 | (None, d'') => (set_db s (u_db u) d'', with_reg b (reregister (b_reg b) (u_db u) (u_conn u) (bl_keys st) (bl_left st) (bl_dl st) (u_at u)))
-                                 end)) W).
-    { destruct (recheck (bl_left st) d' (bl_keys st)) as [[[k v]|] d'']; cbn [snd]; [apply Deliver|apply agree_reregister; assumption]. }
-    assert (Enil : b_wake (snd (match recheck (bl_left st) d' (bl_keys st) with
-                                 | (Some (k, v), d'') => (log_pop (set_db s (u_db u) d'') (u_db u) (bl_left st) k, unblock (emit b (u_conn u) (FArray [FBulk k; FBulk v])) (u_conn u))
-                                 | (None, d'') => (set_db s (u_db u) d'', with_reg b (reregister (b_reg b) (u_db u) (u_conn u) (bl_keys st) (bl_left st) (bl_dl st) (u_at u)))
-                                 end)) = b_wake b)
-      by (destruct (recheck (bl_left st) d' (bl_keys st)) as [[[k v]|] d'']; reflexivity).
-    destruct r; cbn [snd]; intros E;
-      try (rewrite Enil in E; apply app_self_nil in E; subst ex; rewrite app_nil_r; exact Again).
+    (* registered again; the heads of its keys that hold an element are notified *)
+    assert (Again : forall ex0, b_wake (renotify d' (again b u st) (u_db u) (bl_keys st)) = b_wake b ++ ex0 ->
+              agreeW (renotify d' (again b u st) (u_db u) (bl_keys st)) (W ++ ex0)).
+    { intros ex0 E. rewrite renotify_wake in E. cbn [again with_reg b_wake] in E. apply app_inv_head in E. subst ex0.
+      unfold agreeW. rewrite <- renotify_with_wake. apply agree_renotify. apply (agree_reregister b W u st HA Hst). }
+    destruct r; cbn [snd]; intros E; try (apply Again; exact E).
     cbn [unblock emit with_blk b_wake] in E. apply app_self_nil in E. subst ex. rewrite app_nil_r. apply Deliver.
   - assert (Drop : agreeW b W) by (eapply agree_drop_wake; eauto).
     destruct r; cbn [snd]; intros E; try (apply app_self_nil in E; subst ex; rewrite app_nil_r; exact Drop).
@@ -1076,8 +1167,7 @@ Lemma wake_client_conns now s b u : s_conns (fst (wake_client now s b u)) = s_co
 Proof.
   unfold wake_client.
   destruct (on_key (fst (purge_key now (get_db s (u_db u), []) (u_key u))) (u_key u) (e_pop (u_left u))) as [r d'].
-  destruct (zlookup (u_conn u) (b_blk b)) as [st|];
-    [destruct (recheck (bl_left st) d' (bl_keys st)) as [[[k v]|] d'']|]; destruct r; cbn [fst];
+  destruct (zlookup (u_conn u) (b_blk b)) as [st|]; destruct r; cbn [fst];
     rewrite ?(proj1 (proj2 (log_pop_rest _ _ _ _))); reflexivity.
 Qed.
 Lemma wake_fold_conns now : forall l sb, s_conns (fst (fold_left (wake_step now) l sb)) = s_conns (fst sb).
@@ -1310,10 +1400,10 @@ Proof.
   assert (Id : forall bx, b_dead bx = b_dead b -> b_blk bx = b_blk b ->
              b_dead bx = b_dead b /\ forall c2, zlookup c2 (b_blk bx) = None <-> (zlookup c2 (b_blk b) = None \/ (c2 = u_conn u /\ zlookup c2 (b_blk bx) = None))).
   { intros bx E1 E2. split; [exact E1|]. intros c2. rewrite E2. split; [intros G; left; exact G|intros [G|[_ G]]; exact G]. }
-  destruct (zlookup (u_conn u) (b_blk b)) as [st|];
-    [destruct (recheck (bl_left st) d' (bl_keys st)) as [[[k v]|] d'']|]; destruct r; cbn [snd];
+  destruct (zlookup (u_conn u) (b_blk b)) as [st|]; destruct r; cbn [snd];
     first [apply Un | apply Id; reflexivity
-          | apply Id; [exact (proj1 (proj2 (proj2 (proj2 (notify_key_ready_fields _ _ _)))))|exact (proj1 (notify_key_ready_fields _ _ _))]].
+          | apply Id; [exact (proj1 (proj2 (proj2 (proj2 (notify_key_ready_fields _ _ _)))))|exact (proj1 (notify_key_ready_fields _ _ _))]
+          | apply Id; [exact (proj1 (proj2 (proj2 (proj2 (renotify_fields _ _ _ _)))))|exact (proj1 (renotify_fields _ _ _ _))]].
 Qed.
 
 Lemma wake_step_eq0 now s b u : wake_step now (s, b) u = if b_crashed b then (s, b) else wake_client now s b u.
@@ -1321,9 +1411,9 @@ Proof. reflexivity. Qed.
 Lemma wake_client_crashed0 now s b u : b_crashed (snd (wake_client now s b u)) = b_crashed b.
 Proof.
   unfold wake_client. destruct (on_key _ (u_key u) (e_pop (u_left u))) as [r d'].
-  destruct (zlookup (u_conn u) (b_blk b)) as [st|];
-    [destruct (recheck (bl_left st) d' (bl_keys st)) as [[[k v]|] d'']|]; destruct r; cbn [snd];
-    first [reflexivity | exact (proj1 (proj2 (proj2 (notify_key_ready_fields _ _ _))))].
+  destruct (zlookup (u_conn u) (b_blk b)) as [st|]; destruct r; cbn [snd];
+    first [reflexivity | exact (proj1 (proj2 (proj2 (notify_key_ready_fields _ _ _))))
+          | exact (proj1 (proj2 (proj2 (renotify_fields _ _ _ _))))].
 Qed.
 (** the wake-up step: the queue loses its first 32 requests (re-notifications join its back),
     nobody goes on the list of the clients that went away, and only connections whose request was
@@ -1375,7 +1465,13 @@ Proof.
     + apply M2 in Hn. destruct Hn as [Hn|[Hn _]]; [apply HG; [right; exact Hx|exact Hn]|].
       exfalso. destruct HA as (_ & _ & A3 & _). unfold wakes_unique in A3. cbn [with_wake b_wake map] in A3.
       apply NoDup_cons_iff in A3. destruct A3 as [A3 _]. apply A3. rewrite <- Hn. apply in_map. exact Hx.
-    + destruct Eex as [->|(Hnb & ->)]; [destruct Hx|]. exfalso.
+    + destruct Eex as [->|[(Hnb & ->)|(st0 & d0 & Hst0 & -> & Eblk)]]; [destruct Hx| |].
+      2:{ (* woken after the client was registered again: a waiter, hence Blocked *)
+          exfalso. pose proof (agree_reregister b (l ++ b_wake b) u st0 HA Hst0) as HA0. fold (again b u st0) in HA0.
+          unfold agreeW in HA0. rewrite <- (renotified_l_with_wake d0 (u_db u) (bl_keys st0) (again b u st0) (l ++ b_wake b)) in Hx.
+          apply (renotified_l_blocked _ _ _ _ _ HA0) in Hx. cbn [with_wake again with_reg b_blk] in Hx.
+          rewrite Eblk in Hn. contradiction. }
+      exfalso.
       unfold renotified in Hx. destruct (reg_get (b_reg b) (u_db u, u_key u)) as [|w q] eqn:Eg; [destruct Hx|].
       destruct Hx as [<-|[]]. cbn [u_conn] in Hn.
       assert (Hw : In w (reg_get (b_reg b) (u_db u, u_key u))) by (rewrite Eg; left; reflexivity).
@@ -1545,16 +1641,10 @@ Proof.
   - intros c Hn. rewrite F4. destruct (existsb (Z.eqb c) ex); [reflexivity|exact Hn].
 Qed.
 
-(** wake-ups: [key, element] to connections that were Blocked on that key, one each; since
-    8ab686d a wake-up that finds its own key empty tries the other keys of the call, so the
-    key of the reply is one of the keys of the call, not always the key of the wake-up *)
-Lemma recheck_some left : forall keys d k v d', recheck left d keys = (Some (k, v), d') -> bmem k keys = true.
-Proof.
-  induction keys as [|k0 keys IH]; intros d k v d' H; cbn [recheck] in H; [discriminate|].
-  cbn [bmem]. destruct (on_key d k0 (e_pop left)) as [r d1].
-  destruct r; try (rewrite (IH _ _ _ _ H); apply orb_true_r).
-  injection H as <- _ _. rewrite beq_refl. reflexivity.
-Qed.
+(** wake-ups: [key, element] to connections that were Blocked on that key, one each.  (A wake-up
+    that finds its own key empty writes nothing: the client is registered again and the heads of
+    the queues of its keys that hold an element are woken; the key of a reply is the key of the
+    wake-up that delivered it, which is one of the keys of the call) *)
 Lemma wake_client_out now s b u W : agreeW b (u :: W) ->
   let b' := snd (wake_client now s b u) in
   (b_out b' = b_out b /\ b_blk b' = b_blk b) \/
@@ -1569,9 +1659,7 @@ Proof.
   destruct (zlookup (u_conn u) (b_blk b)) as [st|] eqn:Eb.
   - destruct (U st eq_refl) as (U1 & U2 & U3).
     destruct r; cbn [snd];
-      try (destruct (recheck (bl_left st) d' (bl_keys st)) as [[[k v]|] d''] eqn:Er; cbn [snd];
-           [right; exists st, k, v; split; [reflexivity|]; split; [eapply recheck_some; exact Er|]; split; reflexivity
-           |left; split; reflexivity]).
+      try (left; split; [exact (proj1 (proj2 (renotify_fields _ _ _ _)))|exact (proj1 (renotify_fields _ _ _ _))]).
     right. exists st, (u_key u), b0. split; [reflexivity|]. split; [exact U2|]. split; reflexivity.
   - destruct r; cbn [snd]; left; (split; first [reflexivity|exact (proj1 (proj2 (notify_key_ready_fields _ _ _)))|exact (proj1 (notify_key_ready_fields _ _ _))]).
 Qed.
